@@ -181,6 +181,27 @@ def _mandatory_blank_first(g, s):
     return x.kind == 'ref' and x.text == 'blank'
 
 
+def blank_only(g, n, stack=()):
+    """can this element match a stretch of blanks / comments and nothing else?"""
+    k = n.kind
+    if k == 'ref':
+        if n.text == 'blank':
+            return True
+        if n.text in stack or not g.trees.get(n.text):
+            return False
+        return any(blank_only(g, t, stack + (n.text,)) for t in g.trees[n.text])
+    if k in ('opt', 'many0', 'many1', 'map', 'recognize', 'complete', 'cut'):
+        return bool(n.kids) and blank_only(g, n.kids[0], stack)
+    if k == 'alt':
+        return any(blank_only(g, c, stack) for c in n.kids)
+    if k == 'seq':
+        hits = [c for c in n.kids if blank_only(g, c, stack)]
+        return len(hits) >= 1 and all(blank_only(g, c, stack) or g.attr('nullable', c) for c in n.kids)
+    if k == 'cc':
+        return (n.text or '').startswith('multispace')
+    return False
+
+
 def rule_b(rep, g):
     rule = 'R15.b'
     lex = lexemes(g)
@@ -212,8 +233,10 @@ def rule_b(rep, g):
                         key = '%s|%s|%r ~ %r' % (rule, name, _brief(a), _brief(b))
                         if g.attr('ends_token', a) and g.attr('starts_token', b) and not (g.attr('last_blank', a) or g.attr('first_blank', b)):
                             # is there a blank-accepting element strictly between a and b?
+                            # the elements between a and b are all nullable here: blanks are accepted only if one of them can
+                            # match blanks alone (`many0(preceded(opt(blank), X))` cannot: with zero X it consumes nothing)
                             between = kids[a.idx + 1:b.idx]
-                            if any(g.attr('first_blank', x) or g.attr('last_blank', x) for x in between):
+                            if any(blank_only(g, x) for x in between):
                                 rep.ok(rule, key, 'blank accepted between', g.bodies[name].loc())
                             else:
                                 rep.bad(rule, key, g.bodies[name].loc(), 'in %s::parse the tokens %r and %r can be adjacent with no element between them that accepts blanks or comments: the parse depends on layout' % (name, _brief(a), _brief(b)))
@@ -505,6 +528,47 @@ def rule_g(rep, g):
         rep.bad(rule, key, g.bodies['Literal'].loc() if 'Literal' in g.bodies else '', 'Literal no longer accepts both quote styles: %s' % r)
 
 
+def rule_q(rep, g):
+    """R15.q - quoted strings: inside `escaped(normal, ctl, escapable)` the control character itself and the lexeme's own
+    quote are escapable, and `normal` stops at both (otherwise a literal backslash / quote cannot be written at all)"""
+    rule = 'R15.q'
+    n = 0
+    for name, ts in sorted(g.trees.items()):
+        for t in ts:
+            first = t
+            while first.kind in ('map', 'recognize') and first.kids:
+                first = first.kids[0]
+            quote = first.kids[0].text if first.kind == 'seq' and first.kids and first.kids[0].kind == 'tag' else None
+            for x in g.walk(t):
+                if x.kind == 'cc' and getattr(x, 'fn', '') == 'escaped' and x.extra and len(x.extra) >= 3:
+                    n += 1
+                    key = '%s|%s|escapes' % (rule, name)
+
+                    def chars(e):
+                        if e[0] == 'call' and e[2] and e[2][0][0] == 'str':
+                            return e[1].split('::')[-1], set(e[2][0][1])
+                        return None, set()
+                    nf, normal = chars(x.extra[0])
+                    ef, esc = chars(x.extra[2])
+                    ctl = chr(x.extra[1][1]) if x.extra[1][0] == 'const' else None
+                    problems = []
+                    if ctl is None or ef != 'one_of' or nf != 'none_of':
+                        problems.append('unrecognised shape %s' % (x.extra,))
+                    else:
+                        if ctl not in esc:
+                            problems.append('the escape character %r is not itself escapable (escapable set %r)' % (ctl, ''.join(sorted(esc))))
+                        if quote and len(quote) == 1 and quote not in esc:
+                            problems.append('the quote %r is not escapable' % quote)
+                        if ctl not in normal or (quote and len(quote) == 1 and quote not in normal):
+                            problems.append('the unescaped run does not stop at %r / the quote' % ctl)
+                    if problems:
+                        rep.bad(rule, key, g.bodies[name].loc(), 'string lexeme %s: %s: a literal containing that character (e.g. "C:\\\\temp") no longer parses' % (name, '; '.join(problems)))
+                    else:
+                        rep.ok(rule, key, 'escape %r and quote %r are escapable, normal run stops at both' % (ctl, quote), g.bodies[name].loc())
+    if n < 2:
+        rep.anchor_missing(rule, 'escaped(..) string lexemes (found %d, expected 2)' % n)
+
+
 def rule_s(rep, g):
     """R15.s - the IDL leaves list separators free (comma, semicolon or none): every use of list_separator in the
     grammar is optional. A separator that is the mandatory element of a sequence or the `sep` of separated_list0/1
@@ -561,5 +625,6 @@ def run(ctx):
     rule_e(rep, g)
     rule_f(rep, g, prog, cg)
     rule_s(rep, g)
+    rule_q(rep, g)
     rule_g(rep, g)
     return rep
